@@ -335,7 +335,7 @@ func checkC14(r *Run) {
 	if f := r.fn("(*store/iavl.Store).Query"); f != nil {
 		okH := false
 		Instrs(f, func(in ssa.Instruction) {
-			if s, ok := in.(*ssa.Store); ok && P.TermAt(s.Addr, s).String() == "&addr:res.Height" {
+			if s, ok := in.(*ssa.Store); ok && P.TermAt(s.Addr, s).String() == "&addr:github.com/tendermint/tendermint/abci/types.ResponseQuery.Height" {
 				okH = P.TermAt(s.Val, s).String() == h
 			}
 		})
@@ -365,7 +365,7 @@ func checkC14(r *Run) {
 		// value and proof from the same call
 		p := "store/iavl.Tree.GetVersionedWithProof(param:st.tree, param:req.Data, " + h + ")"
 		Instrs(f, func(in ssa.Instruction) {
-			if s, ok := in.(*ssa.Store); ok && P.TermAt(s.Addr, s).String() == "&addr:res.Value" {
+			if s, ok := in.(*ssa.Store); ok && P.TermAt(s.Addr, s).String() == "&addr:github.com/tendermint/tendermint/abci/types.ResponseQuery.Value" {
 				v := P.TermAt(s.Val, s).String()
 				ok2 := v == p+"#0" || v == "nil" || v == "store/iavl.Tree.GetVersioned(param:st.tree, param:req.Data, "+h+")#1" || strings.HasPrefix(v, "(*github.com/tendermint/go-amino.Codec).MarshalBinaryLengthPrefixed(")
 				r.Check(ok2, "C14-R1", "Query/value-source:"+v[:min(len(v), 40)], P.InstrPos(s), v, "res.Value is assigned "+v)
@@ -430,7 +430,7 @@ func checkC14(r *Run) {
 			reach, w, _ := ReachFromBlock(e.B.Succs[e.I], func(in ssa.Instruction) bool {
 				if s, ok := in.(*ssa.Store); ok {
 					a := P.TermAt(s.Addr, s).String()
-					return a == "&addr:res.Value" || a == "&addr:res.Proof"
+					return a == "&addr:github.com/tendermint/tendermint/abci/types.ResponseQuery.Value" || a == "&addr:github.com/tendermint/tendermint/abci/types.ResponseQuery.Proof"
 				}
 				return false
 			}, nil, nil)
